@@ -978,3 +978,69 @@ Lemma empty_coverage_l b q msize levels T all complete empties walked c :
 Proof.
   intros H. apply skipped_task_l. cbn [t_skip]. unfold conf_skip. apply existsb_exists. exists true. split; [exact H | reflexivity].
 Qed.
+
+(* ------------------------------------------------------------------ the walk of a cleanup task = the TileWalker of C11
+   tilewalker_cleanup hands the task to the same TileWalker as seeding (seed/seeder.py); its descent is modelled in
+   Seed.v (geo_walk: get_affected_level_tiles per level, coverage test per meta tile, progress).  Required without
+   Import: Seed.v has its own coord / meta_bbox / can_skip. *)
+From MP Require Seed Seed_proofs.
+
+(* A tile whose meta tile the coverage does not intersect is kept when the meta tiles processed are those the modelled
+   descent hands over (no premise about the recorded walk left; the premises are C11's: well-formed grid, resolutions
+   of at least 10 quanta, valid ascending levels, a start rectangle of positive area, a set-like coverage). *)
+Lemma seed_walk_outside_coverage_kept_l b q msize t g msx msy cov levels root old c e dim l x y :
+  strategy b t = SWalk -> In e c -> e_place e = PTile dim l x y ->
+  Seed_proofs.geo_wf g msx msy -> Seed_proofs.fine_res g -> Seed_proofs.levels_wf g levels -> levels <> [] ->
+  Seed_proofs.proper root -> Seed_proofs.cov_overlap_monotone cov ->
+  cov (Seed.meta_bbox g msx msy (main_tile msize (x, y, l))) = 0 ->
+  In e (cleanup_task b q msize t (Seed.procs (Seed.geo_walk g msx msy cov 0 levels root old)) c).
+Proof.
+  intros S He P Hwf Hf Hl Hne Hp Hm Hc.
+  apply (outside_coverage_kept_l b q msize t _ (fun mt => negb (cov (Seed.meta_bbox g msx msy mt) =? 0)) c e dim l x y S He P).
+  - intros mt Hin.
+    pose proof (Seed_proofs.walk_sound_overlap_lemma g msx msy cov levels root old mt Hwf Hf Hl Hne Hp Hm Hin) as H.
+    apply negb_true_iff. apply Z.eqb_neq. exact H.
+  - rewrite Hc. reflexivity.
+Qed.
+
+(* non-vacuity: C11's example grid (3 levels, 1/2/4 tiles per axis), a bbox coverage over the lower left part, meta
+   size 1: the premises hold, the walk hands tiles over, and the meta tile of tile (3, 3) of level 2 is outside *)
+Example ex_seed_walk_premises :
+  Seed_proofs.geo_wf Seed_proofs.ex_grid 1 1 /\ Seed_proofs.fine_res Seed_proofs.ex_grid /\
+  Seed_proofs.levels_wf Seed_proofs.ex_grid [0; 1; 2] /\ Seed_proofs.proper Seed_proofs.ex_cov /\
+  Seed_proofs.cov_overlap_monotone (Seed.cov_bboxes [Seed_proofs.ex_cov]) /\
+  Seed.cov_bboxes [Seed_proofs.ex_cov] (Seed.meta_bbox Seed_proofs.ex_grid 1 1 (main_tile (fun _ => (1, 1)) (3, 3, 2))) = 0 /\
+  Seed.procs (Seed.geo_walk Seed_proofs.ex_grid 1 1 (Seed.cov_bboxes [Seed_proofs.ex_cov]) 0 [0; 1; 2] Seed_proofs.ex_cov None) <> [] /\
+  strategy (BFile LQuadkey) (mkTask [0; 1; 2] 100 false false false) = SWalk.
+Proof.
+  split; [exact (proj1 Seed_proofs.ex_geo_wf)|]. split; [exact Seed_proofs.ex_fine|].
+  split; [exact (proj2 Seed_proofs.ex_geo_wf)|]. split; [exact Seed_proofs.ex_proper|].
+  split; [exact (Seed_proofs.cov_bboxes_overlap_monotone _ Seed_proofs.ex_exact_tol)|].
+  split; [vm_compute; reflexivity|]. split; [exact Seed_proofs.ex_bboxes_processed | reflexivity].
+Qed.
+
+(* ------------------------------------------------------------------ remove_before given as a time delta *)
+Lemma delta_seconds_sum w d h m s :
+  delta_seconds w d h m s = 604800 * w + 86400 * d + 3600 * h + 60 * m + s.
+Proof. unfold delta_seconds. ring. Qed.
+
+Lemma remove_time_of_delta_sum now w d h m s :
+  remove_time_of_delta now w d h m s = now - 604800 * w - 86400 * d - 3600 * h - 60 * m - s.
+Proof. unfold remove_time_of_delta. rewrite delta_seconds_sum. ring. Qed.
+
+(* a tile whose whole second lies after now minus the SUM of the configured units is kept by every strategy *)
+Lemma delta_newer_tile_kept_l b q msize t walked c e now w d h m s :
+  In e c -> is_tile e = true -> t_all t = false -> stores_timestamp b = true -> 0 < q -> 0 <= e_mtime e ->
+  t_T t = q * remove_time_of_delta now w d h m s ->
+  q * (now - (604800 * w + 86400 * d + 3600 * h + 60 * m + s)) < (e_mtime e / q) * q ->
+  In e (cleanup_task b q msize t walked c).
+Proof.
+  intros He Ht Ha Hs Hq Hm HT Hn. apply newer_whole_second_kept_l; try assumption.
+  rewrite HT. unfold remove_time_of_delta. rewrite delta_seconds_sum. exact Hn.
+Qed.
+
+(* non-vacuity: remove_before {days: 1, hours: 12} is 36 hours, not 24; a 30 hours old tile is newer *)
+Example ex_delta :
+  delta_seconds 0 1 12 0 0 = 129600 /\ remove_time_of_delta 1000000 0 1 12 0 0 = 870400 /\
+  4 * (1000000 - (604800 * 0 + 86400 * 1 + 3600 * 12 + 60 * 0 + 0)) < ((4 * (1000000 - 108000)) / 4) * 4.
+Proof. repeat split; vm_compute; reflexivity. Qed.
